@@ -143,7 +143,11 @@ def inject_i(ch, m):
     if not reps:
         return None
     mask, rname, term = ch.pick(reps)
-    return replace_at(m, path, term), {'kind': 'i', 'slot': slot, 'depth': depth, 'replacement': rname, 'required': typesig.mask_name(req)}
+    info = {'kind': 'i', 'slot': slot, 'depth': depth, 'replacement': rname, 'required': typesig.mask_name(req)}
+    if slot != 'quantifier-body':
+        # the same clash by substitution: a variable stands at the position, the library replaces it by the term
+        info['by_substitution'] = {'holder': replace_at(m, path, SUBST_VAR), 'term': mast.render(term)}
+    return replace_at(m, path, term), info
 
 
 def inject_eq(ch, m):
@@ -325,7 +329,37 @@ def sub_rejects(inp):
     )  # fmt: skip
 
 
-SUBS = {'rejects': sub_rejects}
+SUBST_VAR = ('var', 'x9')
+
+
+def sub_substitution(inp):
+    """inp: {'kind': predicate|condition|event, 'text': well-typed text with @x9 at one typed position, 'term': expression
+    text of a definitely disjoint type, 'injection'}: replace_var_reference('x9', term) must raise TypeError, like the
+    parser does for the text with the term written at that position - an ill-typed predicate is never returned."""
+    kind = inp['kind']
+    if kind == 'event':
+        k, p = lib.outcome('property', inp['text'])
+        a = p.pattern.behaviour if k == 'ast' else p
+    else:
+        k, a = lib.outcome(kind, inp['text'])
+    if k != 'ast':
+        return 'holder-rejected:' + k
+    kt, term = lib.outcome('expression', inp['term'])
+    if kt != 'ast':
+        return 'term-rejected:' + kt
+    st, out = core.guarded(a.replace_var_reference, 'x9', term)
+    if st == 'exc' and isinstance(out, TypeError):
+        return 'rejected'
+    inj = inp.get('injection', {})
+    got = f'returned {type(out).__name__}: {str(out)[:200]}' if st != 'exc' else f'raised {type(out).__name__}: {str(out)[:200]}'
+    raise Violation(
+        'substitution', f'{"returned" if st != "exc" else core.exc_sig(out)}:{inj.get("slot")}:{inj.get("replacement")}', inp,
+        f'replace_var_reference puts a term of a definitely disjoint type ({inj}) at a typed position and {got}\n'
+        f'holder: {inp["text"]!r}  term: {inp["term"]!r}',
+    )  # fmt: skip
+
+
+SUBS = {'rejects': sub_rejects, 'substitution': sub_substitution}
 
 
 ###############################################################################
@@ -443,6 +477,35 @@ def qvar_table_cases():
                     yield {'kind': 'predicate', 'text': mast.render(('pred', m)), 'base_text': base, 'injection': info}
 
 
+def substitution_table():
+    """Deterministic: every typed position of the signature table and the top level of a predicate (bare, in parentheses,
+    as the predicate of an event), holding a variable; every replacement term of a type disjoint from what the position requires."""
+    x = SUBST_VAR
+    ctxs = [(slot, mk, 'predicate', mast.render(('pred', c))) for slot, mk, c in table_contexts(x)]
+    ctxs.append(('predicate-root', B, 'predicate', '{ @x9 }'))
+    ctxs.append(('predicate-root:parentheses', B, 'predicate', '{ (@x9) }'))
+    ctxs.append(('predicate-root:condition', B, 'condition', '@x9'))
+    ctxs.append(('predicate-root:event', B, 'event', 'after a9 as x9: no t9 { @x9 }'))
+    ctxs.append(('predicate-root:event-disjunct', B, 'event', 'after a9 as x9: no (t9 { @x9 } or u9 { (@x9) })'))
+    for slot, mk, kind, text in ctxs:
+        for rmask, rname, term in REPLACEMENTS:
+            if rmask & mk:
+                continue
+            info = {'kind': 'substitution', 'slot': slot, 'replacement': rname, 'required': typesig.mask_name(mk), 'depth': 1}
+            yield {'kind': kind, 'text': text, 'term': mast.render(term), 'injection': info}
+
+
+def run_substitution_table(ctx):
+    with ctx.timed('substitution-table'):
+        for inp in substitution_table():
+            try:
+                r = sub_substitution(inp)
+            except Violation as v:
+                ctx.report(v)
+                r = 'violation'
+            ctx.case(('subst', inp['text'], inp['term']), r == 'rejected', f'substitution-table:{r.split(":")[0]}', sample=None)
+
+
 def run_table(ctx):
     bases = {}
     with ctx.timed('table'):
@@ -510,6 +573,7 @@ def gen_case(ch):
 def shard(ctx, shard_no, nshards, n):
     if shard_no == 0:
         run_table(ctx)
+        run_substitution_table(ctx)
 
     def body(inp):
         if 'skip' in inp:
@@ -517,6 +581,10 @@ def shard(ctx, shard_no, nshards, n):
             return
         sub_rejects(inp)
         inj = inp['injection']
+        bs = inj.get('by_substitution')
+        if bs and inp['kind'] in ('predicate', 'condition'):
+            r = sub_substitution({'kind': inp['kind'], 'text': wrap(inp['kind'], bs['holder']), 'term': bs['term'], 'injection': inj})
+            ctx.count('substitution:' + r.split(':')[0])
         nt = inj['kind'] in ('ii', 'iii') or inj.get('depth', 0) >= 2
         ctx.case(inp['text'], nt, f'{inj["kind"]}:{inj["slot"].split(":")[0]}', sample={'text': inp['text'], 'injection': inj})
 
